@@ -265,9 +265,15 @@ def run(ctx):
     ]
     ctx.tie["derived quantities = functions of the current parameter state (C03_derived_from_current_state)"] = \
         "hand model + correspondence on randomised assignment/read histories of one object (probe_history)"
-    for k in ("derive/_init_subclass", "cor (17 classes)", "correlation/covariance/variogram", "axis/yadrenko/spatial/nugget variants",
-              "calc_integral_scale closed forms", "integral_scale setter", "var_factor", "percentile curve", "default_arg_from_bounds"):
+    for k in ("derive/_init_subclass", "Matern.cor (np.isfinite / masked overflow handling does not translate)", "correlation/covariance/variogram",
+              "axis/yadrenko/spatial/nugget variants", "integral_scale setter", "var_factor", "percentile curve", "default_arg_from_bounds"):
         ctx.tie[k] = "hand model + correspondence"
+    for k in ("Exponential.cor", "Stable.cor", "tplstable_cor", "TPLGaussian/TPLExponential/TPLStable.correlation",
+              "Gaussian/Exponential/Stable/Matern/Integral/Rational.calc_integral_scale", "Gaussian.default_rescale", "great_circle_to_chordal"):
+        ctx.tie[k] = "translated (py2coq, Formulas_gen.v) = hand model for every number type (C03_tie_*, reflexivity) + correspondence"
+    for k in ("Gaussian.cor", "Rational.cor", "Integral.cor", "Cubic.cor", "Linear.cor", "Circular.cor", "Spherical.cor", "HyperSpherical.cor",
+              "SuperSpherical.cor", "JBessel.cor", "TPLSimple.cor"):
+        ctx.tie[k] = "translated (py2coq, Formulas_gen.v) = hand model at R (C03_tie_*: x**2 vs x*x, fmin/fmax vs numpy min/max, masks) + correspondence"
     import time
     t0 = time.time()
     proofs_ok = ctx.proofs("props/C03.v")
